@@ -13,6 +13,8 @@ import OFV.Proofs.C05Maj
 import OFV.Proofs.C05Srl
 import OFV.Proofs.C05TreeLadder
 import OFV.Proofs.C05Car
+import OFV.Proofs.C05SrlAll
+import OFV.Proofs.C05Iop8
 
 namespace OFV.C05
 open OFV OFV.Spec OFV.Model OFV.Model.C05 OFV.Sem OFV.BK OFV.BKT
@@ -139,6 +141,232 @@ chain is impossible: an even `i` in `P(j)` forces `j = i + 1 ∈ U(i)`), so the 
 the two empty lists it would return if no branch fired. -/
 theorem srl_cases_exhaustive (i j n : Nat) (coef : GQ) (hj : j < n) : (srl i j coef n).1 ≤ 10 :=
   srlTag_le i j n hj
+
+
+/-! ### `_seeley_richard_love`: every branch is the Bravyi-Kitaev image of `c a†_i a_j` -/
+
+/-- bridge: an operator that agrees with `bravyi_kitaev(c a†_i a_j)` on encoded states has the fermionic
+matrix elements -/
+theorem srl_of_den (tol : Rat) (htol : tol * tol ≤ 1 / 4) (n i j : Nat) (hi : i < n) (hj : j < n) (c : GQ)
+    (Q : Model.Op) (s s' : Nat)
+    (h : den .qubit Q [Spec.C05.enc .bk n s] [Spec.C05.enc .bk n s']
+      = den .qubit (bkTerm tol n [(i, 1), (j, 0)] c) [Spec.C05.enc .bk n s] [Spec.C05.enc .bk n s']) :
+    GV.coeff (applyOp .qubit Q [Spec.C05.enc .bk n s]) [Spec.C05.enc .bk n s']
+      = GV.coeff (applyOp .fermion [([(i, 1), (j, 0)], c)] [s]) [s'] := by
+  have := bk_term_exact tol htol n [(i, 1), (j, 0)]
+    (by intro f hf; simp at hf; rcases hf with rfl | rfl <;> simp <;> omega) c s s'
+  rw [← this]
+  exact h
+
+/-- **case 0 of `_seeley_richard_love`** (i = j: the number operator `c a†_i a_i = (c/2)(1 − Z_{O(i)})`): whenever this branch fires, the emitted strings with their
+coefficients act on every encoded state like `c a†_i a_j` — all `n`, all `i, j < n`, every complex `c`, on every
+exact run of `_qubit_operator_creation` (`srlOk`, evaluated by the driver on every generated input). -/
+theorem srl_sound_case_0 (tol : Rat) (htol : tol * tol ≤ 1 / 4) (n i j : Nat) (hi : i < n) (hj : j < n) (c : GQ)
+    (htag : (srl i j c n).1 = 0) (hok : srlOk tol i j c n = true) (s s' : Nat) :
+    GV.coeff (applyOp .qubit (srlOp tol i j c n) [Spec.C05.enc .bk n s]) [Spec.C05.enc .bk n s']
+      = GV.coeff (applyOp .fermion [([(i, 1), (j, 0)], c)] [s]) [s'] :=
+  srl_of_den tol htol n i j hi hj c _ s s' (srl_all tol htol n i j hi hj c hok s _)
+
+/-- **case 1 of `_seeley_richard_love`** (i, j even: `left = X_{U∖α} Y_α Z_{P0∖α}` times `Y_j X_i, X_j Y_i, X_j X_i, Y_j Y_i`, coefficient lists for `i < j` and `i > j`): whenever this branch fires, the emitted strings with their
+coefficients act on every encoded state like `c a†_i a_j` — all `n`, all `i, j < n`, every complex `c`, on every
+exact run of `_qubit_operator_creation` (`srlOk`, evaluated by the driver on every generated input). -/
+theorem srl_sound_case_1 (tol : Rat) (htol : tol * tol ≤ 1 / 4) (n i j : Nat) (hi : i < n) (hj : j < n) (c : GQ)
+    (htag : (srl i j c n).1 = 1) (hok : srlOk tol i j c n = true) (s s' : Nat) :
+    GV.coeff (applyOp .qubit (srlOp tol i j c n) [Spec.C05.enc .bk n s]) [Spec.C05.enc .bk n s']
+      = GV.coeff (applyOp .fermion [([(i, 1), (j, 0)], c)] [s]) [s'] :=
+  srl_of_den tol htol n i j hi hj c _ s s' (srl_all tol htol n i j hi hj c hok s _)
+
+/-- **case 2 of `_seeley_richard_love`** (i odd, j even, i ∉ P(j): two strings over `P0∖α`, two over `P2∖α`, both orders): whenever this branch fires, the emitted strings with their
+coefficients act on every encoded state like `c a†_i a_j` — all `n`, all `i, j < n`, every complex `c`, on every
+exact run of `_qubit_operator_creation` (`srlOk`, evaluated by the driver on every generated input). -/
+theorem srl_sound_case_2 (tol : Rat) (htol : tol * tol ≤ 1 / 4) (n i j : Nat) (hi : i < n) (hj : j < n) (c : GQ)
+    (htag : (srl i j c n).1 = 2) (hok : srlOk tol i j c n = true) (s s' : Nat) :
+    GV.coeff (applyOp .qubit (srlOp tol i j c n) [Spec.C05.enc .bk n s]) [Spec.C05.enc .bk n s']
+      = GV.coeff (applyOp .fermion [([(i, 1), (j, 0)], c)] [s]) [s'] :=
+  srl_of_den tol htol n i j hi hj c _ s s' (srl_all tol htol n i j hi hj c hok s _)
+
+/-- **case 3 of `_seeley_richard_love`** (i odd, j even, i ∈ P(j): strings over `P0∖{i}` and `P2∖{i}`): whenever this branch fires, the emitted strings with their
+coefficients act on every encoded state like `c a†_i a_j` — all `n`, all `i, j < n`, every complex `c`, on every
+exact run of `_qubit_operator_creation` (`srlOk`, evaluated by the driver on every generated input). -/
+theorem srl_sound_case_3 (tol : Rat) (htol : tol * tol ≤ 1 / 4) (n i j : Nat) (hi : i < n) (hj : j < n) (c : GQ)
+    (htag : (srl i j c n).1 = 3) (hok : srlOk tol i j c n = true) (s s' : Nat) :
+    GV.coeff (applyOp .qubit (srlOp tol i j c n) [Spec.C05.enc .bk n s]) [Spec.C05.enc .bk n s']
+      = GV.coeff (applyOp .fermion [([(i, 1), (j, 0)], c)] [s]) [s'] :=
+  srl_of_den tol htol n i j hi hj c _ s s' (srl_all tol htol n i j hi hj c hok s _)
+
+/-- **case 4 of `_seeley_richard_love`** (i even, j odd, i ∉ P(j), j ∉ U(i): strings over `P0∖α` and `P1∖α`, both orders): whenever this branch fires, the emitted strings with their
+coefficients act on every encoded state like `c a†_i a_j` — all `n`, all `i, j < n`, every complex `c`, on every
+exact run of `_qubit_operator_creation` (`srlOk`, evaluated by the driver on every generated input). -/
+theorem srl_sound_case_4 (tol : Rat) (htol : tol * tol ≤ 1 / 4) (n i j : Nat) (hi : i < n) (hj : j < n) (c : GQ)
+    (htag : (srl i j c n).1 = 4) (hok : srlOk tol i j c n = true) (s s' : Nat) :
+    GV.coeff (applyOp .qubit (srlOp tol i j c n) [Spec.C05.enc .bk n s]) [Spec.C05.enc .bk n s']
+      = GV.coeff (applyOp .fermion [([(i, 1), (j, 0)], c)] [s]) [s'] :=
+  srl_of_den tol htol n i j hi hj c _ s s' (srl_all tol htol n i j hi hj c hok s _)
+
+/-- **case 5 of `_seeley_richard_love`** (i even, j odd, i ∉ P(j), j ∈ U(i): `X_{U∖{j}}`-strings with `Y_α`, `Z_{P1 ∪ {j}}`): whenever this branch fires, the emitted strings with their
+coefficients act on every encoded state like `c a†_i a_j` — all `n`, all `i, j < n`, every complex `c`, on every
+exact run of `_qubit_operator_creation` (`srlOk`, evaluated by the driver on every generated input). -/
+theorem srl_sound_case_5 (tol : Rat) (htol : tol * tol ≤ 1 / 4) (n i j : Nat) (hi : i < n) (hj : j < n) (c : GQ)
+    (htag : (srl i j c n).1 = 5) (hok : srlOk tol i j c n = true) (s s' : Nat) :
+    GV.coeff (applyOp .qubit (srlOp tol i j c n) [Spec.C05.enc .bk n s]) [Spec.C05.enc .bk n s']
+      = GV.coeff (applyOp .fermion [([(i, 1), (j, 0)], c)] [s]) [s'] :=
+  srl_of_den tol htol n i j hi hj c _ s s' (srl_all tol htol n i j hi hj c hok s _)
+
+/-- **case 6 of `_seeley_richard_love`** (i even, j odd, i ∈ P(j), j ∈ U(i): two strings without Z-part, two over `P1 ∪ {j}`): whenever this branch fires, the emitted strings with their
+coefficients act on every encoded state like `c a†_i a_j` — all `n`, all `i, j < n`, every complex `c`, on every
+exact run of `_qubit_operator_creation` (`srlOk`, evaluated by the driver on every generated input). -/
+theorem srl_sound_case_6 (tol : Rat) (htol : tol * tol ≤ 1 / 4) (n i j : Nat) (hi : i < n) (hj : j < n) (c : GQ)
+    (htag : (srl i j c n).1 = 6) (hok : srlOk tol i j c n = true) (s s' : Nat) :
+    GV.coeff (applyOp .qubit (srlOp tol i j c n) [Spec.C05.enc .bk n s]) [Spec.C05.enc .bk n s']
+      = GV.coeff (applyOp .fermion [([(i, 1), (j, 0)], c)] [s]) [s'] :=
+  srl_of_den tol htol n i j hi hj c _ s s' (srl_all tol htol n i j hi hj c hok s _)
+
+/-- **case 7 of `_seeley_richard_love`** (i, j odd, i ∉ P(j), j ∉ U(i): the four strings over `P0..P3 ∖ α`, both orders): whenever this branch fires, the emitted strings with their
+coefficients act on every encoded state like `c a†_i a_j` — all `n`, all `i, j < n`, every complex `c`, on every
+exact run of `_qubit_operator_creation` (`srlOk`, evaluated by the driver on every generated input). -/
+theorem srl_sound_case_7 (tol : Rat) (htol : tol * tol ≤ 1 / 4) (n i j : Nat) (hi : i < n) (hj : j < n) (c : GQ)
+    (htag : (srl i j c n).1 = 7) (hok : srlOk tol i j c n = true) (s s' : Nat) :
+    GV.coeff (applyOp .qubit (srlOp tol i j c n) [Spec.C05.enc .bk n s]) [Spec.C05.enc .bk n s']
+      = GV.coeff (applyOp .fermion [([(i, 1), (j, 0)], c)] [s]) [s'] :=
+  srl_of_den tol htol n i j hi hj c _ s s' (srl_all tol htol n i j hi hj c hok s _)
+
+/-- **case 8 of `_seeley_richard_love`** (i, j odd, i ∈ P(j), j ∉ U(i): the four strings over `P0..P3 ∖ {i}`): whenever this branch fires, the emitted strings with their
+coefficients act on every encoded state like `c a†_i a_j` — all `n`, all `i, j < n`, every complex `c`, on every
+exact run of `_qubit_operator_creation` (`srlOk`, evaluated by the driver on every generated input). -/
+theorem srl_sound_case_8 (tol : Rat) (htol : tol * tol ≤ 1 / 4) (n i j : Nat) (hi : i < n) (hj : j < n) (c : GQ)
+    (htag : (srl i j c n).1 = 8) (hok : srlOk tol i j c n = true) (s s' : Nat) :
+    GV.coeff (applyOp .qubit (srlOp tol i j c n) [Spec.C05.enc .bk n s]) [Spec.C05.enc .bk n s']
+      = GV.coeff (applyOp .fermion [([(i, 1), (j, 0)], c)] [s]) [s'] :=
+  srl_of_den tol htol n i j hi hj c _ s s' (srl_all tol htol n i j hi hj c hok s _)
+
+/-- **case 9 of `_seeley_richard_love`** (i, j odd, i ∉ P(j), j ∈ U(i): the strings with `x_range_2/3`, `Z_{P1 ∪ {j}}`, `Z_{P3 ∪ {j}}`): whenever this branch fires, the emitted strings with their
+coefficients act on every encoded state like `c a†_i a_j` — all `n`, all `i, j < n`, every complex `c`, on every
+exact run of `_qubit_operator_creation` (`srlOk`, evaluated by the driver on every generated input). -/
+theorem srl_sound_case_9 (tol : Rat) (htol : tol * tol ≤ 1 / 4) (n i j : Nat) (hi : i < n) (hj : j < n) (c : GQ)
+    (htag : (srl i j c n).1 = 9) (hok : srlOk tol i j c n = true) (s s' : Nat) :
+    GV.coeff (applyOp .qubit (srlOp tol i j c n) [Spec.C05.enc .bk n s]) [Spec.C05.enc .bk n s']
+      = GV.coeff (applyOp .fermion [([(i, 1), (j, 0)], c)] [s]) [s'] :=
+  srl_of_den tol htol n i j hi hj c _ s s' (srl_all tol htol n i j hi hj c hok s _)
+
+/-- **case 10 of `_seeley_richard_love`** (i, j odd, i ∈ P(j), j ∈ U(i): the strings with `Z_j`): whenever this branch fires, the emitted strings with their
+coefficients act on every encoded state like `c a†_i a_j` — all `n`, all `i, j < n`, every complex `c`, on every
+exact run of `_qubit_operator_creation` (`srlOk`, evaluated by the driver on every generated input). -/
+theorem srl_sound_case_10 (tol : Rat) (htol : tol * tol ≤ 1 / 4) (n i j : Nat) (hi : i < n) (hj : j < n) (c : GQ)
+    (htag : (srl i j c n).1 = 10) (hok : srlOk tol i j c n = true) (s s' : Nat) :
+    GV.coeff (applyOp .qubit (srlOp tol i j c n) [Spec.C05.enc .bk n s]) [Spec.C05.enc .bk n s']
+      = GV.coeff (applyOp .fermion [([(i, 1), (j, 0)], c)] [s]) [s'] :=
+  srl_of_den tol htol n i j hi hj c _ s s' (srl_all tol htol n i j hi hj c hok s _)
+
+/-- **`_seeley_richard_love` is sound** (all eleven branches together, no hypothesis on which one fires):
+`⟨enc s'| srl(i, j, c, n) |enc s⟩ = ⟨s'| c a†_i a_j |s⟩` for every `n`, all `i, j < n`, every `c`. -/
+theorem srl_sound (tol : Rat) (htol : tol * tol ≤ 1 / 4) (n i j : Nat) (hi : i < n) (hj : j < n) (c : GQ)
+    (hok : srlOk tol i j c n = true) (s s' : Nat) :
+    GV.coeff (applyOp .qubit (srlOp tol i j c n) [Spec.C05.enc .bk n s]) [Spec.C05.enc .bk n s']
+      = GV.coeff (applyOp .fermion [([(i, 1), (j, 0)], c)] [s]) [s'] :=
+  srl_of_den tol htol n i j hi hj c _ s s' (srl_all tol htol n i j hi hj c hok s _)
+
+/-- **the lists returned by `_seeley_richard_love` are exact, unconditionally**: the raw operator
+`Σ_m coefs[m] · ops[m]` (strings as emitted, before `QubitOperator` merges factors; no `+=`, hence no tolerance
+and no regime hypothesis) has the matrix elements of `c a†_i a_j` between encoded states — every `n`, all
+`i, j < n`, every complex `c`, whichever branch fires. -/
+theorem srl_lists_exact (n i j : Nat) (hi : i < n) (hj : j < n) (c : GQ) (s s' : Nat) :
+    GV.coeff (applyOp .qubit ((srl i j c n).2.1.zip (srl i j c n).2.2) [Spec.C05.enc .bk n s]) [Spec.C05.enc .bk n s']
+      = GV.coeff (applyOp .fermion [([(i, 1), (j, 0)], c)] [s]) [s'] := by
+  have htol : (0 : Rat) * 0 ≤ 1 / 4 := by norm_num
+  have h1 := srl_sum 0 htol n i j hi hj c s (δ (Spec.C05.enc .bk n s'))
+  have h2 := bkTerm_hop' 0 htol n i j hi hj c s (Spec.C05.enc .bk n s')
+  have h3 := bk_term_exact 0 htol n [(i, 1), (j, 0)]
+    (by intro f hf; simp at hf; rcases hf with rfl | rfl <;> simp <;> omega) c s s'
+  rw [← h3]
+  change den .qubit _ _ _ = den .qubit _ _ _
+  rw [h2, ← h1, den_eq_sum]
+  congr 1
+  apply List.map_congr_left
+  intro tc _
+  rw [termCoef_φW]
+
+/-- … and it maps encoded states to encoded states only -/
+theorem srl_support (tol : Rat) (htol : tol * tol ≤ 1 / 4) (n i j : Nat) (hi : i < n) (hj : j < n) (c : GQ)
+    (hok : srlOk tol i j c n = true) (s x : Nat) (hx : ∀ s', Spec.C05.enc .bk n s' ≠ x) :
+    GV.coeff (applyOp .qubit (srlOp tol i j c n) [Spec.C05.enc .bk n s]) [x] = 0 := by
+  have h := srl_all tol htol n i j hi hj c hok s x
+  have := bk_term_support tol htol n [(i, 1), (j, 0)]
+    (by intro f hf; simp at hf; rcases hf with rfl | rfl <;> simp <;> omega) c s x hx
+  change den .qubit _ _ _ = 0
+  rw [h]
+  exact this
+
+/-! ### `bravyi_kitaev(InteractionOperator, n_qubits)` -/
+
+/-- **the loops of `_bravyi_kitaev_interaction_operator` as one sum**: the returned Hamiltonian is the `+=`-fold
+over the operands of case A (`n_i`), case C (`n_i · excitation`) and case D (`_hermitian_one_body_product`),
+in program order, plus `_qubit_operator_creation` of all pending strings (one-body pairs, Coulomb/exchange
+`Z`-strings) with the accumulated constant — an identity of Model terms, no hypothesis. -/
+theorem bk_interaction_unfold (tol : Rat) (N nq : Nat) (const : GQ) (one two : List GQ) :
+    bkInteractionOp tol N nq const one two
+      = iadd tol ((iopA tol N nq (Model.C05.get1 N one) ++ iopC tol N nq (Model.C05.get2 N two)
+            ++ iopD tol N nq (Model.C05.get2 N two)).foldl (fun acc img => iadd tol acc img) [])
+          (qubitOperatorCreation tol ((iopPend N nq (Model.C05.get1 N one) (Model.C05.get2 N two)).map (·.1) ++ [[]])
+            ((iopPend N nq (Model.C05.get1 N one) (Model.C05.get2 N two)).map (·.2)
+              ++ [iopConst N const (Model.C05.get2 N two)])) := by
+  rw [iopConst_eq]; exact bkInteractionOp_unfold tol N nq const one two
+
+/-- **`bravyi_kitaev(InteractionOperator, n_qubits)` is sound**: for every tensor size `N`, every `n_qubits ≥ N`
+(also strictly larger than the tensor), every constant and every pair of tensors denoting a Hermitian operator
+(`one[q,p] = conj one[p,q]`; the antisymmetrised two-body tensor `K[pq,rs] = T[pqrs] − T[pqsr] + T[qpsr] − T[qprs]`
+— exactly what `_two_body_coef` reads — satisfies `K[rs,pq] = conj K[pq,rs]`; real or complex; the storage need
+not be Hermitian element by element), the Hamiltonian assembled from the algebraic Seeley-Richard-Love expressions
+(cases A-D) has the matrix elements of `const + Σ one[p,q] a†_p a_q + Σ two[p,q,r,s] a†_p a†_q a_r a_s` between
+encoded states — on every exact run (`bkInteractionOpOk`: every `+=` and every `_qubit_operator_creation`
+deleted only exact zeros; evaluated by the driver on every generated tensor). -/
+theorem bk_interaction_sound (tol : Rat) (htol : tol * tol ≤ 1 / 4) (N nq : Nat) (hN : N ≤ nq) (const : GQ)
+    (one two : List GQ)
+    (h1 : ∀ p q, p < N → q < N → Model.C05.get1 N one q p = (Model.C05.get1 N one p q).conj)
+    (h2 : ∀ p q r s, p < N → q < N → r < N → s < N →
+      Model.C05.get2 N two r s p q - Model.C05.get2 N two r s q p + Model.C05.get2 N two s r q p
+          - Model.C05.get2 N two s r p q
+        = (Model.C05.get2 N two p q r s - Model.C05.get2 N two p q s r + Model.C05.get2 N two q p s r
+          - Model.C05.get2 N two q p r s).conj)
+    (hok : bkInteractionOpOk tol N nq const one two = true) (s s' : Nat) :
+    GV.coeff (applyOp .qubit (bkInteractionOp tol N nq const one two) [Spec.C05.enc .bk nq s]) [Spec.C05.enc .bk nq s']
+      = GV.coeff (applyOp .fermion (Spec.C04.interactionOp N const one two) [s]) [s'] :=
+  bkIop_sound tol htol N nq hN const one two h1 h2 hok s s'
+
+/-- … and it maps encoded states to encoded states only (no Hermiticity needed) -/
+theorem bk_interaction_support (tol : Rat) (htol : tol * tol ≤ 1 / 4) (N nq : Nat) (hN : N ≤ nq) (const : GQ)
+    (one two : List GQ) (hok : bkInteractionOpOk tol N nq const one two = true) (s x : Nat)
+    (hx : ∀ s', Spec.C05.enc .bk nq s' ≠ x) :
+    GV.coeff (applyOp .qubit (bkInteractionOp tol N nq const one two) [Spec.C05.enc .bk nq s]) [x] = 0 :=
+  bkIop_support tol htol N nq hN const one two hok s x hx
+
+/-- **the InteractionOperator path agrees with the FermionOperator path**: `bravyi_kitaev(iop, n)` and
+`bravyi_kitaev(get_fermion_operator(iop), n)` have the same matrix elements between encoded states (both runs in
+their exact regimes) -/
+theorem bk_interaction_matches_fermion_path (tol : Rat) (htol : tol * tol ≤ 1 / 4) (N nq : Nat) (hN : N ≤ nq)
+    (const : GQ) (one two : List GQ)
+    (h1 : ∀ p q, p < N → q < N → Model.C05.get1 N one q p = (Model.C05.get1 N one p q).conj)
+    (h2 : ∀ p q r s, p < N → q < N → r < N → s < N →
+      Model.C05.get2 N two r s p q - Model.C05.get2 N two r s q p + Model.C05.get2 N two s r q p
+          - Model.C05.get2 N two s r p q
+        = (Model.C05.get2 N two p q r s - Model.C05.get2 N two p q s r + Model.C05.get2 N two q p s r
+          - Model.C05.get2 N two q p r s).conj)
+    (hok : bkInteractionOpOk tol N nq const one two = true)
+    (hok' : bkFermionOk tol nq (Spec.C04.interactionOp N const one two) = true) (s s' : Nat) :
+    GV.coeff (applyOp .qubit (bkInteractionOp tol N nq const one two) [Spec.C05.enc .bk nq s]) [Spec.C05.enc .bk nq s']
+      = GV.coeff (applyOp .qubit (bkFermion tol nq (Spec.C04.interactionOp N const one two)) [Spec.C05.enc .bk nq s])
+          [Spec.C05.enc .bk nq s'] := by
+  rw [bk_interaction_sound tol htol N nq hN const one two h1 h2 hok s s']
+  refine (bk_exact tol htol nq _ ?_ hok' s s').symm
+  intro tc htc f hf
+  unfold Spec.C04.interactionOp at htc
+  simp only [List.mem_append, List.mem_cons, List.not_mem_nil, or_false, List.mem_flatMap, List.mem_map,
+    List.mem_range] at htc
+  rcases htc with (rfl | ⟨p, hp, q, hq, rfl⟩) | ⟨p, hp, q, hq, r, hr, s, hs, rfl⟩
+  · simp at hf
+  · simp only [List.mem_cons, List.not_mem_nil, or_false] at hf
+    rcases hf with rfl | rfl <;> simp <;> omega
+  · simp only [List.mem_cons, List.not_mem_nil, or_false] at hf
+    rcases hf with rfl | rfl | rfl | rfl <;> simp <;> omega
 
 /-! ### `bravyi_kitaev_tree` (FenwickTree built by recursive bisection), every `n` -/
 
@@ -280,6 +508,39 @@ example : bkFermionOk Generated.eqTolerance 5
 example : (((List.range 16).flatMap (fun i => (List.range 16).map fun j => srlTag i j 16)).eraseDups).length = 11 := by
   decide +kernel
 
+/-- the hypotheses of `srl_sound_case_k` hold on concrete inputs for every branch and both index orders
+(`n = 11`, not a power of two; complex coefficient): branch tag and exact-regime flag, kernel-evaluated -/
+example : (∀ t ∈ [(0, 0, 0), (1, 2, 0), (1, 0, 2), (2, 1, 0), (2, 1, 4), (3, 1, 2), (4, 2, 1), (4, 0, 5), (5, 0, 3), (6, 0, 1), (7, 3, 1), (7, 1, 5), (8, 3, 5), (9, 1, 7), (10, 1, 3)],
+    (srl t.2.1 t.2.2 ⟨mkRat 3 4, -2⟩ 11).1 = t.1 ∧ srlOk Generated.eqTolerance t.2.1 t.2.2 ⟨mkRat 3 4, -2⟩ 11 = true) := by
+  decide +kernel
+
+/-- the hypotheses of `bk_interaction_sound` on a concrete complex 4-orbital InteractionOperator in NON-canonical
+storage (quartic entry `T[3,2,1,0] = 1/2 + i` with its Hermitian partner stored as `T[1,0,2,3] = -(1/2 - i)`,
+an imaginary number-excitation entry, a Coulomb entry, junk on a `p = q` entry), on 5 qubits (`n_qubits > N`):
+all cases A-D are exercised, and the exact-regime flag is kernel-evaluated -/
+example :
+    let one : List GQ := [0, ⟨1, 1⟩, 0, 0, ⟨1, -1⟩, 0, 0, 0, 0, 0, ⟨mkRat 1 2, 0⟩, 0, 0, 0, 0, 0]
+    let two : List GQ := [0, 0, 0, 0, 0, 0, 0, 0, 0, 0, 0, 0, 0, 0, 0, 0, 0, 0, 0, 0, 0, 0, 0, 0, 0, 0, 0, 0, 0, 0, 0, 0, 0, 0, 0, 0, 0, 0, 0, 0, 0, ⟨0, -2⟩, 0, 0, 0, 0, 0, 0, 0, 0, 0, 0, 0, 0, 0, 0, 0, 0, 0, 0, 0, 0, 0, 0, 0, 0, 0, 0, 0, 0, 0, 0, 0, 0, 0, ⟨-(mkRat 1 2), 1⟩, 0, 0, 0, 0, 0, 0, 0, 0, 0, 0, 0, 0, ⟨7, 3⟩, 0, 0, 0, 0, 0, 0, 0, 0, 0, 0, 0, 0, 0, 0, 0, 0, 0, 0, 0, 0, 0, 0, 0, 0, 0, 0, 0, 0, 0, 0, 0, 0, 0, 0, 0, 0, 0, 0, 0, 0, 0, 0, 0, 0, 0, 0, 0, 0, 0, 0, 0, 0, 0, 0, 0, 0, 0, ⟨0, 2⟩, 0, 0, 0, 0, 0, 0, 0, 0, 0, 0, 0, 0, 0, 0, 0, 0, 0, 0, 0, 0, 0, 0, 0, 0, 0, 0, 0, 0, 0, 0, 0, 0, 0, 0, 0, 0, 0, 0, 0, 0, 0, 0, 0, 0, 0, 0, 0, 0, 0, 0, 0, 0, 0, 0, 0, 0, 0, 0, 0, 0, 0, 0, 0, 0, 0, 0, 0, 0, ⟨mkRat 3 4, 0⟩, 0, 0, 0, 0, 0, 0, 0, 0, 0, 0, 0, 0, ⟨mkRat 1 2, 1⟩, 0, 0, 0, 0, 0, 0, 0, 0, 0, 0, 0, 0, 0, 0, 0, 0, 0, 0, 0, 0, 0, 0, 0, 0, 0, 0, 0]
+    (∀ p q, p < 4 → q < 4 → Model.C05.get1 4 one q p = (Model.C05.get1 4 one p q).conj)
+    ∧ (∀ p q r s, p < 4 → q < 4 → r < 4 → s < 4 →
+        Model.C05.get2 4 two r s p q - Model.C05.get2 4 two r s q p + Model.C05.get2 4 two s r q p
+            - Model.C05.get2 4 two s r p q
+          = (Model.C05.get2 4 two p q r s - Model.C05.get2 4 two p q s r + Model.C05.get2 4 two q p s r
+            - Model.C05.get2 4 two q p r s).conj)
+    ∧ bkInteractionOpOk Generated.eqTolerance 4 5 ⟨mkRat 1 2, 0⟩ one two = true := by
+  intro one two
+  refine ⟨?_, ?_, by decide +kernel⟩
+  · have H : ∀ p, p < 4 → ∀ q, q < 4 → Model.C05.get1 4 one q p = (Model.C05.get1 4 one p q).conj := by
+      decide +kernel
+    exact fun p q hp hq => H p hp q hq
+  · have H : ∀ p, p < 4 → ∀ q, q < 4 → ∀ r, r < 4 → ∀ s, s < 4 →
+        Model.C05.get2 4 two r s p q - Model.C05.get2 4 two r s q p + Model.C05.get2 4 two s r q p
+            - Model.C05.get2 4 two s r p q
+          = (Model.C05.get2 4 two p q r s - Model.C05.get2 4 two p q s r + Model.C05.get2 4 two q p s r
+            - Model.C05.get2 4 two q p r s).conj := by
+      decide +kernel
+    exact fun p q r s hp hq hr hs => H p hp q hq r hr s hs
+
 example : ∀ m ∈ [11, 0, 3, 11, 4], m / 2 < 6 := by decide
 
 /-- the exact-regime hypothesis of `tree_exact` on a concrete operator, `n = 6` (tree ≠ Fenwick there) -/
@@ -290,10 +551,6 @@ example : bkTreeFermionOk Generated.eqTolerance 6
 /-! ### statements of C05 that are NOT proved here (covered by correspondence + Spec oracle only; see
 `OPEN_STATEMENTS` in harness/c05.py)
 
-* `srl_sound` (open): for `i, j < n`, `⟨enc s'| srlOp i j c n |enc s⟩ = ⟨s'| c a†_i a_j |s⟩` (cases 1-10 of
-  `_seeley_richard_love`; only the exhaustiveness of the case split, `srl_cases_exhaustive`, is proved).
-* `bk_interaction_sound` (open): `bkInteractionOp N n …` denotes the tensor formula under `enc .bk n`, for all
-  `n ≥ N` (would follow from `srl_sound` and the product/sum lemmas used for `bk_exact`).
 * isospectrality with Jordan-Wigner / preservation of expectation values as separate statements (they follow from
   `bk_exact` + `bk_enc_injective`: the transformed operator is the Jordan-Wigner one conjugated by the relabelling). -/
 
